@@ -2,6 +2,7 @@ package engine
 
 import (
 	"fmt"
+	"go/types"
 
 	"golang.org/x/tools/go/ssa"
 )
@@ -91,8 +92,45 @@ func init() {
 		return nil
 	})
 	reg("verifGuardedBy", func(m *Machine, fn *ssa.Function, a []Value) Value {
-		p := a[0].(Iface).V.(Ptr)
-		m.Mon.guards[ptrKey(p)] = true
+		// accepts a pointer to a lock, or a struct (value or pointer) whose lock fields are the guards;
+		// a lock held BY VALUE inside a struct value has no stable identity and registers nothing
+		iv := a[0].(Iface)
+		var scan func(v Value, t types.Type, at *Ptr)
+		scan = func(v Value, t types.Type, at *Ptr) {
+			switch x := v.(type) {
+			case Ptr:
+				if x.Obj == nil {
+					return
+				}
+				pt, ok := t.Underlying().(*types.Pointer)
+				if !ok {
+					return
+				}
+				if isSyncLockType(pt.Elem()) {
+					m.Mon.guards[ptrKey(x)] = true
+					return
+				}
+				if _, isStruct := pt.Elem().Underlying().(*types.Struct); isStruct {
+					scan(*m.cell(x), pt.Elem(), &x)
+				}
+			case *StructV:
+				st, ok := t.Underlying().(*types.Struct)
+				if !ok {
+					return
+				}
+				for i, f := range x.F {
+					ft := st.Field(i).Type()
+					if isSyncLockType(ft) && at != nil {
+						m.Mon.guards[ptrKey(sub(*at, i))] = true
+					} else if _, isPtr := ft.Underlying().(*types.Pointer); isPtr {
+						if fp, ok := f.(Ptr); ok && fp.Obj != nil && isSyncLockType(ft.Underlying().(*types.Pointer).Elem()) {
+							m.Mon.guards[ptrKey(fp)] = true
+						}
+					}
+				}
+			}
+		}
+		scan(iv.V, iv.T, nil)
 		return nil
 	})
 	reg("verifSharedReach", func(m *Machine, fn *ssa.Function, a []Value) Value {
@@ -146,3 +184,8 @@ func (m *Machine) Try(f func()) (gp *GoPanic) {
 }
 
 func (m *Machine) String() string { return fmt.Sprintf("machine(steps=%d)", m.steps) }
+
+func isSyncLockType(t types.Type) bool {
+	n, ok := t.(*types.Named)
+	return ok && n.Obj().Pkg() != nil && n.Obj().Pkg().Path() == "sync" && (n.Obj().Name() == "Mutex" || n.Obj().Name() == "RWMutex")
+}
